@@ -75,6 +75,35 @@ def check_method(F, rep, name, ty, size):
                         "%s: on success *offset = %s, expected %s (advance by exactly %d)" % (q, pp(offv), pp(end), size))
         elif t.op == "agg" and t.args[3] == "Err":
             seen["err"] += 1
+            # completeness: a read is refused only because offset + width overflows, the buffer has no such range, or the (unreachable)
+            # slice-to-array conversion failed - never on a further condition on the offset or the bytes
+            def from_data(x, depth=0):
+                # the buffer itself, or a sub-slice of it obtained by a successful get (narrowing in two steps)
+                if x.op in ("refval", "deref"):
+                    x = x.args[0]
+                if x is data:
+                    return True
+                return depth < 3 and x.op == "payload" and x.args[1] == "Some" and x.args[0].op == "call" and x.args[0].args[0] == "[T]::get" \
+                    and from_data(x.args[0].args[2][0], depth + 1)
+            def failed(f):
+                """(X, failing variant) when the fact says that X is None / Err - as a variant fact or as a fact about its discriminant"""
+                if f[0] == "var" and isinstance(f[1], Term):
+                    return f[1], f[2]
+                if f[0] in ("eq", "ne") and isinstance(f[1], Term) and f[1].op == "discr" and f[2] in (0, 1) and f[1].args[0].op == "call":
+                    is_result = f[1].args[0].args[0] in ("convert::TryInto::try_into", "convert::TryFrom::try_from")
+                    d = f[2] if f[0] == "eq" else 1 - f[2]          # the discriminant value the fact establishes (two variants)
+                    if is_result and d == 1:
+                        return f[1].args[0], "Err"
+                    if not is_result and d == 0:
+                        return f[1].args[0], "None"
+                return None, None
+            causes = [f for f in (("var",) + failed(g) for g in st.facts if failed(g)[0] is not None) if f[1].op == "call" and (
+                (f[1].args[0] == "usize::checked_add" and f[2] == "None") or (f[1].args[0] == "[T]::get" and f[2] == "None" and from_data(f[1].args[2][0]))
+                or (f[1].args[0] in ("convert::TryInto::try_into", "convert::TryFrom::try_from", "[T]::first_chunk", "[T]::split_first_chunk") and f[2] in ("Err", "None")))]
+            if not causes:
+                okall = False
+                rep.bad("read-template", q + ":refusal", w,
+                        "%s: an error outcome (%s) is reached although the end offset was computed and the buffer has the range: reads that fit are refused" % (q, pp(t)[:100]))
             if pnorm(offv) != pnorm(off0):
                 okall = False
                 rep.bad("read-template", q + ":err-untouched", w,
